@@ -325,6 +325,51 @@ def check_cyl(case):
     return o
 
 
+@st.composite
+def cylflux_case(draw):
+    c = draw(cyl_case())
+    # another annulus, solved first in the same process with the same truncation (a second user of the class must not change this one's modes)
+    a0 = draw(uni(0.2, 0.5))
+    c['prior'] = dict(a=a0, b=a0 + draw(uni(0.4, 0.8)))
+    c['prior_first'] = draw(st.booleans())
+    return c
+
+
+def check_cylflux(case):
+    """The declared radial conditions d_r T = 0 at r = a and r = b (they hold mode by mode, independently of the time dependence and amplitudes that
+    KF-C14-cylindrical-sandwich is about), one-sided 4th-order differences through the public call."""
+    o = Out()
+    P = case['params']
+    if case['prior_first']:
+        try:
+            s0 = cat.make_solver(dict(solver=CYL, params=dict(P, **case['prior'])))
+            T2(s0, [0.5 * (case['prior']['a'] + case['prior']['b'])], [0.7], 0.01)
+        except RuntimeError:
+            pass                                   # (Newton search of the other annulus failed: part of the known finding, irrelevant here)
+        o.label('another annulus solved first')
+    try:
+        s = cat.make_solver(case)
+        a, b, kappa = P['a'], P['b'], P['kappa']
+        t = case['t'] * (b - a) ** 2 / kappa
+        th = case['fth'] * math.pi / 2
+        scale = (abs(P['T0']) + abs(P['T1']) + 1e-6) / (b - a)
+        for h in (0.02 * (b - a), 0.01 * (b - a)):
+            Ta = T2(s, a + h * np.arange(5), np.full(5, th), t)
+            Tb = T2(s, b - h * np.arange(5), np.full(5, th), t)
+            da = (-25 * Ta[0] + 48 * Ta[1] - 36 * Ta[2] + 16 * Ta[3] - 3 * Ta[4]) / (12 * h)
+            db = -(-25 * Tb[0] + 48 * Tb[1] - 36 * Tb[2] + 16 * Tb[3] - 3 * Tb[4]) / (12 * h)
+            if h > 0.015 * (b - a):
+                d1 = (da, db)
+        # truncation error of the stencil ~ h^4 T^(5) / 5: the retained radial modes oscillate with alpha_nm <= ~ Msum pi / (b - a); both step sizes must fail
+        wa, wb = min(abs(da), abs(d1[0])), min(abs(db), abs(d1[1]))
+        o.close('zero radial heat flux at r = a', wa, 0.0, 0.0, atol=2e-3 * scale, d_h=float(d1[0]), d_h2=float(da))
+        o.close('zero radial heat flux at r = b', wb, 0.0, 0.0, atol=2e-3 * scale, d_h=float(d1[1]), d_h2=float(db))
+    except RuntimeError:
+        o.label('newton-search-failed (known finding)')
+    o.nontrivial = True
+    return o
+
+
 OBLIGATIONS = [
     Obligation('rod-and-sandwiches', rod_case(), check_rod, quick=300, thorough=10000),
     Obligation('rod-robin', robin_case(), check_robin, quick=80, thorough=2000, min_per_shard=4),
@@ -332,4 +377,5 @@ OBLIGATIONS = [
     Obligation('rectangle', rect_case(), check_rect, quick=32, thorough=500, min_per_shard=2),
     Obligation('hutchens2', h2_case(), check_h2, quick=40, thorough=1000, min_per_shard=2),
     Obligation('cylindrical-sandwich', cyl_case(), check_cyl, quick=16, thorough=200, min_per_shard=1),
+    Obligation('cylsandwich-radial-flux', cylflux_case(), check_cylflux, quick=32, thorough=400, min_per_shard=2),
 ]
